@@ -93,6 +93,10 @@ func (e *Engine) eval(st *State, x ast.Expr) []valOut {
 		for _, b := range e.eval(st, x.X) {
 			v := e.newVal(KAssert, e.Info.TypeOf(x), x.Pos())
 			v.Src = b.v
+			// a single-value assertion to an interface type panics on a nil operand: the result is never nil
+			if _, isIface := v.Type.Underlying().(*types.Interface); isIface {
+				v.NonNil = true
+			}
 			out = append(out, valOut{b.st, v})
 		}
 		return out
@@ -176,7 +180,19 @@ func (e *Engine) evalIdent(st *State, id *ast.Ident) *Val {
 	case *types.Nil:
 		return e.nilVal()
 	case *types.Const:
-		v := e.constVal(o.Val(), o.Type())
+		key := "k:" + o.Name()
+		if o.Pkg() != nil {
+			key = "k:" + o.Pkg().Path() + "." + o.Name()
+		}
+		if v, ok := e.consts[key]; ok {
+			return v
+		}
+		canon := e.constVal(o.Val(), o.Type())
+		v := e.newVal(KConst, o.Type(), token.NoPos)
+		v.Const = o.Val()
+		v.Obj = o
+		v.Canon = canon
+		e.consts[key] = v
 		return v
 	case *types.Var:
 		if v, ok := st.env[o]; ok {
